@@ -113,22 +113,34 @@ def eval_tree(tree, parent, drop_except=False):
 
 
 def chain(mod, t, which):
-    """constraint specs from the base type outward (serial order)"""
-    specs = []
+    """constraint specs of one kind from the base type outward (serial order).
+    X.680 50.8: a constraint applied serially to an extensible parent acts on the
+    parent *without* its extension marker and additions, whatever the kind of the
+    later constraint -- so a spec keeps its marker only when nothing at all
+    (size, alphabet or value constraint) is applied after it."""
+    nodes = []
     seen = 0
-    stack = []
     while True:
-        c = getattr(t, which)
-        if c is not None:
-            stack.append(c.specs)
+        nodes.append(t)
         if t.kind != "REF":
             break
         t = mod.types[t.ref]
         seen += 1
         if seen > 100:
             raise ValueError("loop")
-    for s in reversed(stack):
-        specs.extend(s)
+    ordered = []        # (kind, spec) in order of application (textual order on one node: SIZE, FROM, value)
+    for n in reversed(nodes):
+        for kind in ("size_c", "alpha_c", "value_c"):
+            c = getattr(n, kind)
+            if c is not None:
+                ordered.extend((kind, sp) for sp in c.specs)
+    specs = []
+    for i, (kind, sp) in enumerate(ordered):
+        if kind != which:
+            continue
+        if i < len(ordered) - 1 and sp[1]:
+            sp = (sp[0], False, None)
+        specs.append(sp)
     return specs
 
 
